@@ -129,11 +129,13 @@ package socket
 //@   property C15
 //@   flags libframe
 //@   let hm = as(m, type(*message))
-//@   modifies hm.seq, hm.mtype, hm.serviceMethod, hm.status, fields(hm.meta), allelems(type(utils.argsKV))
+//@   modifies hm.seq, hm.mtype, hm.serviceMethod, hm.status, hm.status.#fromWire, fields(hm.meta), allelems(type(utils.argsKV))
+//@   ensures[status-field-decoded] @C04 result.1 == nil ==> hm.status != nil && hm.status.#fromWire
 //@   requires msgOwnStatus(as(m, type(*message)))
 
 //@ func (*rawProto).Unpack
-//@   property C15 C12 C06
+//@   property C15 C12 C06 C04
+//@   ensures[status-field-decoded] @C04 result == nil ==> as(m, type(*message)).status != nil && as(m, type(*message)).status.#fromWire
 //@   requires msgOwnStatus(as(m, type(*message)))
 //@   requires[no-pending-refusal] @C12 !ghost.appendFailed
 //@   ensures[refusal-propagated] @C12 result == nil ==> !ghost.appendFailed
